@@ -56,7 +56,7 @@ static size_t first_nonzero(const uint8_t* p, size_t from, size_t to) {
 
 // the set of byte ranges of a block the harness touches: everything for blocks <= 1 MiB, else first/last page + a sample
 template <class F> static void for_touched_ranges(const Block* b, size_t limit, F f) {
-  if (limit <= FULL_FILL_MAX) { f((size_t)0, limit); return; }
+  if (limit <= FULL_FILL_MAX || b->full_fill) { f((size_t)0, limit); return; }
   f((size_t)0, PG);
   Rng r; r.seed(b->id * 77 + 5);
   size_t pages = limit / PG;
@@ -69,10 +69,7 @@ static inline size_t pattern_limit(const Block* b) { return b->zchain ? b->req :
 void block_fill(Block* b) {
   size_t lim = pattern_limit(b);
   for_touched_ranges(b, lim, [&](size_t s, size_t e) { fill_range(b->p, b->id, s, e); });
-  if (b->zchain && b->usable > b->req && b->usable <= FULL_FILL_MAX) {
-    // the slack of a zero-initialised block is never written by the program (and must be writable: store zeros)
-    memset(b->p + b->req, 0, b->usable - b->req);
-  }
+  // the slack [req,usable) of a zero-initialised block is never touched by the program: growing it in place must find zeros
   b->filled = true;
 }
 
@@ -264,7 +261,7 @@ static void zero_check(Block* b, const uint8_t* p, size_t from, size_t to, const
     size_t nz = first_nonzero(p, s, e);
     if (nz != (size_t)-1) sim_violation("not_zero", "%s: byte %zu of %p (requested %zu) reads 0x%02x instead of zero (range that must be zero: [%zu,%zu))", what, nz, (const void*)p, b->req, p[nz], from, to);
   };
-  if (to <= FULL_FILL_MAX * 4) chk(from, to);
+  if (to - from <= FULL_FILL_MAX * 8 || b->full_fill) chk(from, to);
   else for_touched_ranges(&tmp, to, chk);
 }
 
@@ -299,6 +296,7 @@ static void do_alloc(const Op& op) {
   b->p = (uint8_t*)r.p; b->req = r.req; b->align = r.align; b->offset = r.offset; b->id = H.next_block_id++;
   b->zchain = r.zero; b->prog = T->prog; b->subproc = T->subproc; b->slot = s;
   b->heap = (mh >= 0 ? mh : T->deflt);
+  b->full_fill = (op.flags & OPF_FULL_FILL) != 0;
   sched_set_passthrough(true);
   b->usable = mi_usable_size(r.p);
   sched_set_passthrough(false);
@@ -448,7 +446,7 @@ static void do_realloc(const Op& op) {
   }
   Block* nb = new Block();
   nb->p = (uint8_t*)q; nb->req = newreq; nb->usable = usable; nb->id = H.next_block_id++; nb->align = align; nb->offset = offset;
-  nb->prog = T->prog; nb->subproc = T->subproc; nb->slot = s;
+  nb->prog = T->prog; nb->subproc = T->subproc; nb->slot = s; nb->full_fill = (op.flags & OPF_FULL_FILL) != 0;
   if (q == p && old) { nb->heap = old->heap; nb->prog = old->prog; nb->subproc = old->subproc; nb->orphan_kind = old->orphan_kind; probe(PR_realloc_inplace); }
   else { nb->heap = (mh >= 0 ? mh : T->deflt); probe(PR_realloc_moved); }
   // zero lineage
